@@ -3,6 +3,7 @@ package harness
 import (
 	"encoding/binary"
 	"fmt"
+	"github.com/wmnsk/go-pfcp/ie"
 	"time"
 
 	"github.com/omec-project/upf-epc/zzverif/vsim"
@@ -174,8 +175,14 @@ func scenarioC13(r *Run) {
 		case 6:
 			gap = time.Duration(r.Ch.Choose(3000, "ms")) * time.Millisecond
 		}
+		// (drawn here: the boundary rule below must know when the report really arrives)
+		during := !flood && !reuse && r.Ch.Choose(8, "during-slow-request") == 1
+		var off time.Duration
+		if during {
+			off = time.Duration(1+r.Ch.Choose(150, "during-ms")) * time.Millisecond
+		}
 		// stay away from the exact interval boundary relative to the last forwarded report
-		at := r.Sim.NowNS() + int64(gap)
+		at := r.Sim.NowNS() + int64(gap) + int64(off)
 		if last, ok := notifierLast[fseid]; ok {
 			d := time.Duration(at - last)
 			if d > ddnInterval-3*time.Millisecond && d < ddnInterval+3*time.Millisecond {
@@ -185,7 +192,38 @@ func scenarioC13(r *Run) {
 		}
 		r.Sim.RunFor(gap)
 		now := r.Sim.NowNS()
-		inject(fseid)
+		if during {
+			// the report arrives while the association's goroutine is inside a session
+			// request whose datapath calls take a while (far below the plug-in's patience):
+			// it is forwarded all the same, now or when the request is through
+			now += int64(off)
+			f := fseid
+			r.Sim.At(now, func() { inject(f) })
+			if up4 {
+				r.W.P4.Faults.SlowDen, r.W.P4.Faults.SlowBy = 1, 200*time.Millisecond
+			} else {
+				r.W.Bess.Faults.SlowDen, r.W.Bess.Faults.SlowBy = 1, 200*time.Millisecond
+			}
+			other := mk()
+			r.W.P4.Faults.SlowDen, r.W.Bess.Faults.SlowDen = 0, 0
+			if r.Sim.NowNS() < now {
+				r.Sim.RunFor(time.Duration(now - r.Sim.NowNS()))
+			}
+			// The property puts no bound on when the notification leaves (on UP4 the
+			// listener waits for the request to be through): the interval of the
+			// reference notifier starts when the Session Report Request was seen, if one was
+			r.Sim.RunFor(20 * time.Millisecond)
+			for _, m := range p.Rx {
+				if _, ok := m.Msg.(*message.SessionReportRequest); ok && m.Err == nil && m.At >= now {
+					now = m.At - int64(r.W.Net.FromAgent.LatMin)
+					break
+				}
+			}
+			r.Fault("report-during-slow-session-request")
+			r.Op("the next report arrives %v into a session establishment with slow datapath calls (accepted: %v)", off, other != nil)
+		} else {
+			inject(fseid)
+		}
 		// reference notifier
 		last, known := notifierLast[fseid]
 		forward := !known || time.Duration(now-last) >= ddnInterval
@@ -235,6 +273,17 @@ func scenarioC13(r *Run) {
 			}
 			r.Op("session up=%d moved to CP SEID %d (%s) -> accepted=%v", target.s.UPSEID, m.NewCPSEID, m.Tag, res.Accepted)
 			r.Skel("cpseid:" + m.Tag)
+		}
+		// occasionally an Update FAR that carries forwarding parameters but no Apply
+		// Action (the element is conditional): refused or accepted, the rule's action
+		// is what it was, and so is the notification behaviour
+		if r.Ch.Choose(10, "update-far-without-action") == 1 && target != nil && target.live {
+			m := &ModSpec{Tag: "uF:no-apply-action", Extra: []*ie.IE{ie.NewUpdateFAR(ie.NewFARID(2),
+				ie.NewUpdateForwardingParameters(ie.NewDestinationInterface(ie.DstInterfaceAccess)))}}
+			res := p.Modify(target.s, m)
+			r.Op("session up=%d: Update FAR 2 without Apply Action -> accepted=%v", target.s.UPSEID, res.Accepted)
+			r.Skel(fmt.Sprintf("uF-no-action:%v", res.Accepted))
+			r.Probe("update-far-without-apply-action")
 		}
 		// occasionally delete a session / create a new one (SEID reuse when the PRNG repeats)
 		if r.Ch.Choose(10, "churn") == 1 && target != nil && target.live {
